@@ -45,12 +45,12 @@ Proof. exact enc_msg_spec. Qed.
 
 (* the bytes carry exactly the message's values: the reference decoder reads the reference encoding (= Marshal's
    output, by the theorem above) back as the message (normal form of Schema/Norm.v), at every budget above the length *)
-Theorem C01_reference_reads_the_values : forall s g idx fs un m, RoundTrip.rt_applies s = true -> nth_error s idx = Some m ->
+Theorem C01_reference_reads_the_values : forall s g idx fs un m, RoundTrip.rt_applies_at s idx = true -> nth_error s idx = Some m ->
   RoundTrip.rt_ok g s idx fs un = true ->
   bytes_ok (ref_encode g s idx fs un) /\
   forall G, (length (ref_encode g s idx fs un) < G)%nat ->
     ref_decode G s idx (ref_encode g s idx fs un) (zero_fields s m, []) = Some (Norm.norm_fields g s idx fs, un).
-Proof. exact RoundTrip.ref_round_trip. Qed.
+Proof. exact RoundTrip.ref_round_trip_at. Qed.
 
 (* What remains outside the theorems: that the reference specification (Ref.v) is the protobuf wire format -
    ref_encode/ref_decode are compared with protobuf-go (dynamicpb) on every generated message on every run - and
